@@ -67,7 +67,18 @@ Definition bad_cases_with (T : tables) (cs : list (nat * lcase)) : list nat :=
 Definition doc_tables : tables :=
   {| tb_initial := INITIALIZING; tb_status := fun s => if str_eqb s c_offline then ERROR else spec_status s;
      tb_terminal := spec_terminal; tb_guard := spec_guard;
-     tb_store := fun s => status_eqb s DONE;
+     tb_store := fun s => status_eqb s DONE; tb_store_fj := fun _ => false;
+     tb_fast_b := fun h s => h && status_eqb s DONE; tb_tail_b := fun s => status_eqb s DONE;
+     tb_fast_a := fun h s => h && status_eqb s DONE; tb_tail_a := fun s => status_eqb s DONE;
+     tb_submit_raises := fun s => status_eqb s ERROR;
+     tb_init := 0; tb_cond := fun r => r <=? 5; tb_incr := fun r => r + 1; tb_final := fun r => 5 <? r |}.
+
+(** the same for the source in which from_json itself records the results of a 'finished' reply
+    (proposed_fixes/C17-results-of-finished-submission.diff) *)
+Definition doc_tables_fj : tables :=
+  {| tb_initial := INITIALIZING; tb_status := fun s => if str_eqb s c_offline then ERROR else spec_status s;
+     tb_terminal := spec_terminal; tb_guard := spec_guard;
+     tb_store := fun _ => false; tb_store_fj := fun s => status_eqb s DONE;
      tb_fast_b := fun h s => h && status_eqb s DONE; tb_tail_b := fun s => status_eqb s DONE;
      tb_fast_a := fun h s => h && status_eqb s DONE; tb_tail_a := fun s => status_eqb s DONE;
      tb_submit_raises := fun s => status_eqb s ERROR;
